@@ -22,10 +22,10 @@ type Scenario struct {
 	Build      func(w *World)
 	Check      func(w *World)
 	Settle     func(w *World) // after the main phase, faults off, before the drain: enqueue post-fault probes
-	NonTrivial []string // a run is non-trivial if one of these probes fired (and see RunResult.NonTrivial)
-	Weight     int      // relative share of runs (default 1)
-	Race       bool     // meaningful only in the race build
-	NoRace     bool     // skip in the race build
+	NonTrivial []string       // a run is non-trivial if one of these probes fired (and see RunResult.NonTrivial)
+	Weight     int            // relative share of runs (default 1)
+	Race       bool           // meaningful only in the race build
+	NoRace     bool           // skip in the race build
 	// DeadlockDirected: runs that show a lock-order candidate are re-executed with the
 	// deadlock-directed scheduler (directed.go)
 	DeadlockDirected bool
@@ -67,30 +67,30 @@ func scenarioByName(prop, name string) *Scenario {
 
 // RunResult is what one simulated run reports.
 type RunResult struct {
-	Prop       string         `json:"prop"`
-	Variant    string         `json:"variant"`
-	RunIndex   int            `json:"run_index"`
-	RunSeed    uint64         `json:"run_seed"`
-	TapeLen    int            `json:"tape_len"`
-	Tape       TapeData       `json:"tape,omitempty"`
-	LogHash    string         `json:"log_hash"`
-	Violations []Violation    `json:"violations,omitempty"`
-	Probes     map[string]int `json:"probes,omitempty"`
-	Faults     map[string]int `json:"faults,omitempty"`
-	Steps      int            `json:"steps"`
-	Preempts   int            `json:"preempts"`
-	Advances   int            `json:"advances"`
-	Tasks      int            `json:"tasks"`
-	SimUs      int64          `json:"sim_us"`
-	States     int            `json:"states"`
-	NonTrivial bool           `json:"nontrivial"`
-	Strategy   int            `json:"strategy"`
-	WallUs     int64          `json:"wall_us"`
-	Log        []string       `json:"log,omitempty"`
-	Labels     []string       `json:"labels,omitempty"`
-	ToolErr    string         `json:"tool_err,omitempty"`
-	Race       bool           `json:"race_build"`
-	StateKeys  []string       `json:"-"`
+	Prop       string            `json:"prop"`
+	Variant    string            `json:"variant"`
+	RunIndex   int               `json:"run_index"`
+	RunSeed    uint64            `json:"run_seed"`
+	TapeLen    int               `json:"tape_len"`
+	Tape       TapeData          `json:"tape,omitempty"`
+	LogHash    string            `json:"log_hash"`
+	Violations []Violation       `json:"violations,omitempty"`
+	Probes     map[string]int    `json:"probes,omitempty"`
+	Faults     map[string]int    `json:"faults,omitempty"`
+	Steps      int               `json:"steps"`
+	Preempts   int               `json:"preempts"`
+	Advances   int               `json:"advances"`
+	Tasks      int               `json:"tasks"`
+	SimUs      int64             `json:"sim_us"`
+	States     int               `json:"states"`
+	NonTrivial bool              `json:"nontrivial"`
+	Strategy   int               `json:"strategy"`
+	WallUs     int64             `json:"wall_us"`
+	Log        []string          `json:"log,omitempty"`
+	Labels     []string          `json:"labels,omitempty"`
+	ToolErr    string            `json:"tool_err,omitempty"`
+	Race       bool              `json:"race_build"`
+	StateKeys  []string          `json:"-"`
 	LockCycles []simrt.LockCycle `json:"-"`
 }
 
